@@ -158,6 +158,21 @@ def run_case(case, ctx):
     if case['route'] == 'segy':
         sgy = sc.file('s.sgy')
         gen.make_segy(sgy, data, il, xl, dt_us=case['dt'], t0=case['t0'], fmt=case['fmt'])
+        # the interval is recorded in the binary header and in every trace header; they may disagree or one may be empty:
+        # the source's sample axis is whatever segyio reports for the file
+        ih = [None, None, 'bin-zero', 'bin-differs', 'trace-zero', 'trace-differs'][int(case['id'].split(':')[1]) % 6]
+        if ih:
+            with segyio.open(sgy, 'r+', strict=False, ignore_geometry=True) as f:
+                other = 2 * case['dt'] if 2 * case['dt'] < 32768 else max(1, case['dt'] // 2)
+                if ih == 'bin-zero':
+                    f.bin[segyio.BinField.Interval] = 0
+                elif ih == 'bin-differs':
+                    f.bin[segyio.BinField.Interval] = other
+                else:
+                    for t_ in range(f.tracecount):
+                        h_ = f.header[t_]
+                        h_[117] = 0 if ih == 'trace-zero' else other
+        interval_hdr = ih
         with segyio.open(sgy, strict=False) as f:
             s_il, s_xl, s_z, s_n = np.array(f.ilines), np.array(f.xlines), np.array(f.samples, dtype=np.float64), f.tracecount
         # thorough detection: square cubes whose inline and crossline numbers agree on first and last trace are outside the heuristic's precondition
@@ -232,7 +247,7 @@ def run_case(case, ctx):
     if case['route'] == 'numpy':
         extra_strata = ['numpy-axes:' + numpy_how]
     else:
-        extra_strata = []
+        extra_strata = ['interval-hdr:%s' % interval_hdr]
     strata = extra_strata + ['route:' + case['route'], 'dt:%d' % case['dt'], 't0:%d' % case['t0'], 'ilstart:' + case['ilk'], 'xlstart:' + case['xlk'],
               'ilstep:%s' % (case['il'][1] if abs(case['il'][1]) <= 1000 else 'huge'), 'xlstep:%s' % (case['xl'][1] if abs(case['xl'][1]) <= 1000 else 'huge'), 'follow:%s' % fol]
     return {'violations': bad, 'counters': {'sources': 1}, 'strata': strata,
@@ -242,7 +257,7 @@ def run_case(case, ctx):
 def finalize(tier, cases, results, counters, strata):
     reasons = []
     need = ['dt:%d' % d for d in INTERVALS] + ['t0:%d' % t for t in T0S] + ['ilstep:%d' % s for s in STEPS] + \
-           ['ilstart:max', 'ilstart:min', 'xlstart:max', 'xlstart:min', 'ilstart:span', 'xlstart:span', 'route:segy', 'route:numpy', 'route:zgy', 'follow:crop', 'follow:reblock', 'follow:export', 'follow:window', 'numpy-axes:args', 'numpy-axes:headers', 'numpy-axes:both', 'numpy-axes:il-headers-only']
+           ['ilstart:max', 'ilstart:min', 'xlstart:max', 'xlstart:min', 'ilstart:span', 'xlstart:span', 'route:segy', 'route:numpy', 'route:zgy', 'follow:crop', 'follow:reblock', 'follow:export', 'follow:window', 'interval-hdr:bin-zero', 'interval-hdr:bin-differs', 'interval-hdr:trace-zero', 'interval-hdr:trace-differs', 'numpy-axes:args', 'numpy-axes:headers', 'numpy-axes:both', 'numpy-axes:il-headers-only']
     need += ['route:segy2d'] + ['2d-t0:%d' % t for t in T0S[:4]] + ['2d-how:' + h for h in ('nonumbers', 'single-inline', 'single-crossline')]
     need += ['zgy-dz:%s' % d for d in ZGY_DZ] + ['zgy-z0:%s' % z for z in ZGY_Z0[:3]]
     for s in need:
